@@ -478,12 +478,11 @@ def judge(ck, prop, doc, metas, name):
             if case["raised"]:
                 for stage, verdict, fired in ents:
                     if fired and exc_matches(meta["exc"], verdict):
-                        sig = fired[-1] if verdict == "model-error:fragindex" and "F32" in fired else fired[0]
-                        sig = "F32" if verdict == "model-error:fragindex" else sig
+                        sig = u.attribute(fired, verdict.split(":", 1)[1])
             else:
                 ok, fired = accepted(case, ents)
                 if ok and fired:
-                    sig = fired[0]
+                    sig = u.attribute(fired)
             why = ("the code raised %s at %s: %s" % (meta["exc"]["type"], meta["exc"]["site"], meta["exc"]["msg"][:160])) if case["raised"] \
                 else "record rejected by FFTrace at " + first_bad(by.get(i + 1, []))
             rep = {"kind": "I->S record", "name": name, "ff": doc["ffs"][case["inp"]["ff"] - 1], "case": case, "meta": meta}
@@ -618,7 +617,7 @@ def itp_agrees(ck, prop, doc, metas):
 def run_traces(ck, prop, tier, sd):
     quick = tier == "quick"
     wd = c.workdir(prop, "traces")
-    nrand = (60 if quick else 600)
+    nrand = 60 if quick else (600 if prop == "C01" else 300)
     doc, metas = random_doc(prop, nrand, sd, wd)
     ck.sample({"I->S input": doc["cases"][0]["inp"], "observed final atoms": doc["cases"][0]["final"]["atoms"][:3]})
     nacc, by = judge(ck, prop, doc, metas, "random")
